@@ -21,6 +21,8 @@ def _within(inner, outer):
 
 
 MIX = VOpq(None, "mix")
+# ghost flags that must survive joins (a may-have-happened on some path): merged by max
+STICKY_GHOST = ("buf-write-failed",)
 
 
 class Joiner:
@@ -348,6 +350,12 @@ class Joiner:
         out.facts = facts
         out.neqs = [d for d in A.neqs if d in B.neqs]
         out.ghost = {k: v for k, v in A.ghost.items() if B.ghost.get(k) == v}
+        for k in STICKY_GHOST:
+            va, vb = A.ghost.get(k, 0), B.ghost.get(k, 0)
+            if va or vb:
+                out.ghost[k] = max(va, vb)
+                if vb > va and self.keep:
+                    self.changed = True
         # relational facts for the new symbols
         self.post_sub = None
         self.relate()
